@@ -34,7 +34,7 @@ func configFor(k int, rng *sim.Rng) Config {
 	c.BufferV1 = []Frac{fr(6, 5), fr(3, 2), fr(1, 1)}[k%3]
 	c.CuspV1 = []Frac{fr(7, 10), fr(3, 5), fr(1, 2)}[(k/2)%3]
 	c.Interest = c.StabFee.Num > 0
-	if k%2 == 1 { // every other run: a collector that can cover the whole debt of any auction (loss close-outs that draw more than the shortfall succeed too)
+	if rng.Intn(2) == 1 { // about every other run: a collector that can cover the whole debt of any auction (loss close-outs that draw more than the shortfall succeed too)
 		c.CollectorFund = 1000 * c.DecS
 	}
 	return c
@@ -418,7 +418,8 @@ func Main(args []string) int {
 		}
 	}
 	if *depth > 0 {
-		exploreV1(lg, *seed, *depth+1, *maxNodes/2)
+		exploreV1(lg, *seed, *depth+1, *maxNodes/3, 0)
+		exploreV1(lg, *seed, *depth+1, *maxNodes/3, 100)
 		if *esm {
 			exploreEsm(lg, *seed, *depth+3, *maxNodes/3, true)
 			exploreEsm(lg, *seed, *depth+3, *maxNodes/3, false)
@@ -557,9 +558,14 @@ func explore(lg *sim.Log, rng *sim.Rng, seed int64, depth, maxNodes int, actsFil
 // exploreV1: bounded breadth-first exploration of the first-generation liquidation and Dutch auction actions on the real
 // code, from a prepared state (two vaults at their minimum ratio, then the collateral price halves): every sequence of the
 // action instances below up to `depth`, de-duplicated by the digest of the projected state, on CacheContext branches.
-func exploreV1(lg *sim.Log, seed int64, depth, maxNodes int) {
-	w0 := Setup(exploreConfig())
+func exploreV1(lg *sim.Log, seed int64, depth, maxNodes int, fund int64) {
+	cfg := exploreConfig()
+	cfg.CollectorFund = fund
+	w0 := Setup(cfg)
 	run := fmt.Sprintf("explorev1:%d", seed)
+	if fund > 0 { // a collector that can cover the whole debt of either auction
+		run = fmt.Sprintf("explorev1c:%d", seed)
+	}
 	root := rootNode(lg, w0, run)
 	p1 := w0.Prods[0].ID
 	par := root
